@@ -16,6 +16,7 @@ import (
 	"verif/lib"
 
 	"github.com/aml-org/amf-custom-validator/pkg/config"
+	"github.com/aml-org/amf-custom-validator/pkg/events"
 )
 
 func init() { checks["C10"] = c10 }
@@ -106,20 +107,26 @@ func c10Child(tier string, seed int64) {
 	}
 	runOp := func(op *c10Op, compiled []lib.Compiled) string {
 		cfg := c10Cfgs[op.Cfg]
+		// every second operation supplies its own (buffered) event channel: the event plumbing runs concurrently too
+		var chp *chan events.Event
+		if (op.P+op.D+op.Cfg)%2 == 0 {
+			ch := make(chan events.Event, 64)
+			chp = &ch
+		}
 		switch op.Kind {
 		case "validate":
-			return digestOf(lib.ValidateCfg(profiles[op.P], docs[op.D], nil, lib.Epoch2000, cfg))
+			return digestOf(lib.ValidateCfg(profiles[op.P], docs[op.D], chp, lib.Epoch2000, cfg))
 		case "compile":
-			c := lib.Compile(profiles[op.P], nil)
+			c := lib.Compile(profiles[op.P], chp)
 			if c.Failed() {
 				return "ERROR"
 			}
-			return digestOf(lib.ValidateCompiledCfg(c.Q, docs[op.D], nil, lib.Epoch2000, cfg))
+			return digestOf(lib.ValidateCompiledCfg(c.Q, docs[op.D], chp, lib.Epoch2000, cfg))
 		default:
 			if compiled[op.P].Failed() {
 				return "ERROR"
 			}
-			return digestOf(lib.ValidateCompiledCfg(compiled[op.P].Q, docs[op.D], nil, lib.Epoch2000, cfg))
+			return digestOf(lib.ValidateCompiledCfg(compiled[op.P].Q, docs[op.D], chp, lib.Epoch2000, cfg))
 		}
 	}
 	compiled := make([]lib.Compiled, len(profiles))
